@@ -283,7 +283,31 @@ impl Driver {
                 )?;
             }
         }
+        self.check_live_votes_match_log(ctx)?;
         self.check_no_reversal(ctx)
+    }
+
+    /// What the coordinator holds in memory for a pending transaction is what a restart would
+    /// rebuild from the log: the votes it counts are exactly the logged votes it accepted. (A vote
+    /// that is logged and acknowledged but not counted - or counted but not logged - makes the
+    /// restarted coordinator decide differently from the one that crashed.)
+    fn check_live_votes_match_log(&self, ctx: &mut CaseCtx) -> Result<(), Fail> {
+        let reference = classify(&self.recs);
+        for id in &self.txs {
+            let (Some(live), Some(r)) = (self.coord.get(*id), reference.get(id)) else { continue };
+            let live_votes: BTreeMap<usize, bool> = live.votes.iter().map(|(s, v)| (*s, matches!(v, PrepareVote::Yes { .. }))).collect();
+            if live_votes != r.votes {
+                let suffix = if self.torn_tail_then_append { "-after-torn-tail" } else { "" };
+                return ctx.fail(
+                    format!("live-votes-differ-from-log{suffix}"),
+                    format!(
+                        "transaction {id}: the coordinator counts the votes {live_votes:?} (shard -> yes) but the log it wrote holds the accepted votes {:?}; a restart would rebuild the latter",
+                        r.votes
+                    ),
+                );
+            }
+        }
+        Ok(())
     }
 
     /// Over the surviving log: no transaction has completion records of both kinds.
